@@ -411,3 +411,38 @@ def bf2_words(vc):
             except Exception as e:          # noqa: the property is exactly about this
                 bad.append((line[:40], type(e).__name__, str(e)[:50]))
     vc.prove("only-format-errors", not bad, repr(bad[:4]))
+
+
+# ---------------------------------------------------------------------------------------
+# BF2 importer: every tag-type byte 0..255 as the type of the FIRST data line of a section, of a LATER data line after a
+# mapped base type, and of a whole second section (bounded, exhaustive in the type byte).
+
+def fam_tagtypes(seed, tier):
+    for tt in range(256):
+        for shape in ("first", "later", "second-section", "only-line"):
+            yield dict(tt=tt, shape=shape)
+
+
+@proof("C14/bf2_import.tag-types", functions=[(BF3, "Bf3File.bf2_import"), (BF3, "Bf3File.parse_bf2_file"), (BF3, "is_known_tagtype")],
+       family=fam_tagtypes, bounded_only=True)
+def bf2_tagtypes(vc):
+    import io
+    vc.module("bec2format")
+    import bec2format as B
+    from bec2format import error as E
+    tt, shape = vc._get("tt"), vc._get("shape")
+
+    def line(ndx, typ, payload=b"\x06\x00\x00ABCD"):
+        raw = ndx.to_bytes(2, "big") + bytes([typ, len(payload)]) + payload
+        return ":" + raw.hex().upper()
+    if shape == "first":
+        body = [line(0, 0xFE, b""), line(1, tt), line(2, tt, b"\x06\x00\x04EFGH"), line(3, 0xFF, b"")]
+    elif shape == "later":
+        body = [line(0, 0xFE, b""), line(1, 0x35), line(2, tt, b"\x06\x00\x04EFGH"), line(3, 0xFF, b"")]
+    elif shape == "second-section":
+        body = [line(0, 0xFE, b""), line(1, 0x84), line(2, 0xFF, b""), line(3, 0xFE, b""), line(4, tt), line(5, 0xFF, b"")]
+    else:
+        body = [line(0, tt)]
+    text = "\n".join(["##Bf3Update: yes", "##Firmware: 1100 FW-NAME   1.05.07"] + body) + "\n"
+    out = vc.call(B.Bf3File.bf2_import, io.StringIO(text))
+    vc.prove("only-format-errors", out.returned or out.raised(E.FormatError, ValueError), repr(out.exc))
